@@ -1,3 +1,15 @@
+(* A call run ALONE on the small-step machine M2 (UpperMachine.v) computes the big-step function of the
+   sequential model (Upper.v): same result, same final memory, other threads untouched, ghost held list updated
+   as `ufinish` does; on `Panic x` the thread stops in `UPanic x c` (same site; the memory is not claimed).
+   This file: the call kinds put, drain, change_tree, and the glue from the thread-level simulation
+   (UpperSoloLemmas.v) to the fuel-bounded solo run of `ustep` (`usolo_of_sim`).  get is in UpperSoloGet.v.
+     usolo_put    : Shape g (low u)                       (one lower call, SoloRun.v)
+     usolo_drain  : no hypothesis
+     usolo_change : TreesFit g u  (ntrees * THUGE <= |ents|: the huge-entry table covers every tree entry)
+   Method: continuation-passing simulation.  For every function F of the code with entry action `enter_F u args k`:
+   if the thread is about to process that action with return-chain depth d (`At d u (enter_F ..) cf`), then running
+   alone it reaches (`Reach`) the configuration that delivers F's big-step result to the continuation k
+   (`At d' u' (ARet v k)`), or the panic state.  One lemma per primitive (UpperSoloLemmas.v) and per control construct. *)
 From Coq Require Import PeanoNat ZifyBool.
 From LLF Require Import Base BitLemmas Row RowProofs Bitfield Lower Spec Sorted Upper LowerMachine
   UpperInvDef LowerFacts LowerFactsProofs UpperPrims SoloRunLemmas SoloRun Progress UpperMachine UpperSoloLemmas.
